@@ -1,22 +1,98 @@
+_A = "Assumes the child contract (itself asserted of every combinator proved), parametricity of safe generic code, Kani/CBMC and Verus/Z3 soundness; harnesses whose name ends in _b<k> are bounded stand-ins, listed separately and not counted as proved."
 CLAIMS.update({
     "C01": (
         "Every primitive matcher and every sequencing/choice/option/lookahead/output-transforming combinator's real go body is proved (Kani/CBMC, loop-free harness, symbolic input of unbounded length, symbolic entry state, every behaviour the parser contract allows its children) to satisfy the PEG equation of that node; whole-grammar PEG semantics follows by structural induction over the contracts. Right level because the property quantifies over all grammars x all inputs, which only a modular proof covers.",
-        "Assumes the child contract (itself asserted of every combinator), parametricity of safe generic code, Kani/CBMC soundness; slice/Vec choice and multi-token just are bounded stand-ins (listed, not counted).",
+        _A + " Slice/Vec choice and multi-token just are bounded.",
         "DESIGN 3, 4/C01",
     ),
     "C02": (
-        "The loop-free step functions Repeated::next/next_cfg and SeparatedBy::next (and the adaptor steps enumerate/map/or_not) are proved for all bounds, counts, flags, child behaviours and input lengths against the statement's case table (greedy, possessive, [at_least, at_most], separator only between items or where leading/trailing allows); the drivers that merely iterate a step (collect, count, foldl, foldr, Repeated::go) are bounded stand-ins (<=2 items per run), listed and not counted.",
-        "Child contract incl. progress of items (K-prog); drivers bounded; the unbounded lift from steps to whole repetitions is the count induction (DESIGN 3.5 L-count).",
+        "The loop-free step functions Repeated::next/next_cfg and SeparatedBy::next (and the adaptor steps enumerate/map/or_not) are proved for all bounds, counts, flags, child behaviours and input lengths against the statement's case table; the count induction from step contracts to whole repetitions is a Verus lemma; the drivers that merely iterate a step (collect, count, foldl, foldr, Repeated::go, SeparatedBy::go, collect_exactly) are bounded stand-ins.",
+        _A + " Items consume input (K-prog).",
         "DESIGN 3.7, 4/C02",
     ),
+    "C03": (
+        "parse_with_state / check_with_state are proved with a contract stub as grammar on an input of unbounded length: output iff the grammar matched the entire input, no output implies >= 1 error, errors = emitted ones (+ primary); end() rejects any remaining token; the ParseResult accessors are verified by Verus on text extracted from the repository (into_result is Ok iff no errors and an output) and by Kani; lazy() is bounded (<= 2 trailing tokens).",
+        _A,
+        "DESIGN 4/C03",
+    ),
     "C04": (
-        "Every combinator harness is instantiated at Check mode and must satisfy the same mode-free specification (call pattern and entry states of children, acceptance, position, emitted errors, pending error, inspector) as at Emit; children are mode-independent by contract, so check() and parse() coincide node by node and hence for every grammar. Value-eliding forms (ignore_then, then_ignore, to, ignored, to_slice, to_span, delimited_by, padded_by) are proved against the same specification as their value-building forms.",
-        "Same assumptions as C01; a two-run comparison in one harness is not used (too expensive), both runs are compared against one specification instead.",
+        "Every combinator harness is instantiated at Check mode and must satisfy the same mode-free specification (call pattern and entry states of children, acceptance, position, emitted errors, pending error, inspector) as at Emit; children are mode-independent by contract, so check() and parse() coincide node by node and hence for every grammar. Value-eliding forms are proved against the same specification as their value-building forms; Ext's separate check path is proved equivalent to its parse path.",
+        _A + " A two-run comparison in one harness is not used (too expensive): both runs are compared against one specification.",
         "DESIGN 4/C04",
     ),
     "C05": (
-        "Emission-framing postcondition proved on every backtracking site covered: on success the emitted-error list is exactly the entry list followed by the emissions of the children whose result is kept, in call order; abandoned children leave nothing (each retried child is entered with the entry list); on failure the entry list is a prefix. Same for the inspector checkpoint (rewound before each retry).",
-        "Under CBMC the list is compared by length at every observation point (contents natively in the small-scope sweep); equal lengths imply equal contents because the list is only pushed to / truncated (source scan reported in evidence).",
+        "Emission-framing postcondition proved on every backtracking site covered: on success the emitted-error list is exactly the entry list followed by the emissions of the children whose result is kept, in call order; abandoned children leave nothing; on failure the entry list is a prefix; save/rewind/rewind_input/emit proved directly. Same for the inspector checkpoint.",
+        _A + " Under CBMC the list is compared by length at every observation point (contents in the native small-scope sweep); equal lengths imply equal contents because the list is only pushed to / truncated (source scan in evidence).",
         "DESIGN 4/C05",
+    ),
+    "C06": (
+        "add_alt / add_alt_err are proved to implement the priority rule (later replaces, equal merges, earlier kept; zero-sized fast paths leave an error); every combinator proved leaves as pending error exactly the furthest of the offers made inside it and the one pending at entry, merged at equal positions (Offers specification); error construction sites report a truthful span and found token; the max-fold lemmas (Verus) lift this to whole grammars.",
+        _A + " Rich/Simple/Cheap merge functions themselves are exercised only through their LabelError contract (the recording error type); their internals are not proved.",
+        "DESIGN 4/C06",
+    ),
+    "C07": (
+        "Capture sites (map_with, to_span, to_slice, try_map, try_map_with, validate, select, foldl_with, pratt folds) are proved to hand user code exactly span/slice(entry cursor .. cursor after the child); per input kind span/slice are proved to cover exactly the cursor range, slices being sub-slices of the caller's buffer (slices, arrays, &str on char boundaries: bounded buffers of 4), mapped/iter inputs spanning first-token start to last-token end.",
+        _A + " The empty-match clause on token-spanned inputs fails and is a recorded finding.",
+        "DESIGN 4/C07",
+    ),
+    "C08": (
+        "recover_with + via_parser proved completely against the three cases of the statement (transparent on success; strategy output plus exactly one extra error = the error pending when the parser failed; both fail => fails with that error having consumed and emitted nothing); skip_until / skip_then_retry_until are bounded (2 rounds).",
+        _A + " nested_delimiters is a composition of proved combinators and is not separately checked.",
+        "DESIGN 4/C08",
+    ),
+    "C09": (
+        "left_power/right_power verified by Verus on extracted text (2x, 2x+1 / 2x+1, 2x, no overflow); the operator steps Infix/Prefix/Postfix::do_parse_* proved completely (attempted iff power >= minimum, operand parsed at the operator's right power, unusable operator rewound and left operand handed back, fold in token order with the whole sub-expression's span); tuple and boxed tables proved, Vec table and the pratt_go loop bounded; the binding-power lemma (Verus) gives grouping by associativity.",
+        _A,
+        "DESIGN 4/C09",
+    ),
+    "C10": (
+        "One Input contract (begin at 0; next yields token i and cursor i+1 or None at the end without moving; spans/slices cover the cursor range) is proved per representation: &[T], &[T;N], &str (bounded buffers), Input::map, map_span, with_context over the symbolic input (unbounded), IterInput and Stream (bounded, at-most-once in-order pulls); all combinators are proved against an input that satisfies nothing but this contract.",
+        _A + " IoInput, Graphemes and the 512-item batch boundary of Stream are not covered.",
+        "DESIGN 4/C10",
+    ),
+    "C12": (
+        "Recursive (declare/define and recursive()) is proved to forward to its definition from the caller's state (so a recursive grammar equals its unrolling by induction over a terminating parse); one level of real self-reference is checked bounded; a second definition is refused and the first stays in force.",
+        _A + " define() is entered through a cfg-guarded hook under Kani (its #[track_caller] location lookup is not translatable); stack depth / stacker is not decided.",
+        "DESIGN 4/C12",
+    ),
+    "C13": (
+        "Forwarding contract proved for &T, &&T, Box, Rc, Arc, Boxed (and its clone), Either, Cache::get: exactly one run of the wrapped parser from the caller's state with the same result, position, errors and pending error; a second parse through the same Cache is a fresh run; parse_with_state builds its per-parse state from its arguments only. Interior-mutability sites of the library are enumerated by a source scan compared with a reviewed list.",
+        _A + " &self immutability of safe code is the compiler's guarantee; threads are not decided.",
+        "DESIGN 4/C13",
+    ),
+    "C14": (
+        "Character classes proved over the full domain of u8 and char against their definitions, with u8/char agreement on ASCII; XID classes restricted to ASCII; newline() proved completely on an input of unbounded length; int, digits, whitespace, inline_whitespace, ascii::ident, ascii::keyword, padded checked against reference recognisers with at most 3 tokens left (bounded), on char and byte inputs.",
+        _A + " regex, unicode idents beyond ASCII and Graphemes are not covered; char::is_whitespace/is_digit of std are used as specification.",
+        "DESIGN 4/C14",
+    ),
+    "C15": (
+        "with_ctx, nested providers (nearest wins, outer back in force afterwards), ignore_with_ctx / then_with_ctx (right parser sees this attempt's left output), map_ctx, configure on just and repeated (matches as the statically configured parser), try_configure errors becoming failures: all proved on the real go / make_iter / next bodies.",
+        _A,
+        "DESIGN 4/C15",
+    ),
+    "C16": (
+        "NestedIn::go with with_input proved: inner parser starts at the beginning of the inner input in isolation from outer errors, success iff it matches the inner input completely, outer input advances by exactly what the outer parser consumed, inner emissions surface, inner failure surfaces as a pending error no earlier than the nested input, outer pending error preserved by priority.",
+        _A + " Inner emissions bounded to 2 per child call.",
+        "DESIGN 4/C16",
+    ),
+    "C17": (
+        "Labelled::go (plain and as_context) and MapErr/MapErrWithState::go proved: acceptance, consumption, outputs, number of errors and the pending error's position/merging are those of the undecorated child; label replaces expectations iff the failure is at the first token, context (label, span from start to failure) added iff further in; mapper applied exactly once to the error of this child's failure and never on success or to other parsers' errors.",
+        _A,
+        "DESIGN 4/C17",
+    ),
+    "C18": (
+        "The inspector invariant (state = fold of exactly the tokens before the position) is a pre- and postcondition of every combinator harness, with checkpoints rewound before every retry; next/peek/skip_while/save/rewind proved to call the hooks exactly as required; observation points (select, map_with, try_map_with, validate, foldl_with) see the invariant; with_state runs its child on a fresh copy per invocation and leaves the outer state untouched; after a successful parse the state reflects the whole input.",
+        _A,
+        "DESIGN 4/C18",
+    ),
+    "C19": (
+        "Drop-exactly-once contracts on the unsafe sites with a drop-tracking output type: array group and collect_exactly into [T;N] / Box<[T;N]> for N = 2 (3 in thorough): success hands every value to the caller undropped, failure at any index drops the initialised prefix exactly once, Check mode builds no values; Kani's pointer/initialisation checks are clean.",
+        _A + " Const-generic N is a finite family of complete proofs (2, 3); everywhere else drop-once is rustc's guarantee for safe code.",
+        "DESIGN 4/C19",
+    ),
+    "C20": (
+        "Per function under contract: all of Kani's automatic checks (panics, unwrap on None, arithmetic overflow, bounds, pointer validity, unchecked decode preconditions) pass under the child contract, and 'a failing parser leaves a pending error' (what every can't-fail unwrap relies on) is proved as a postcondition of every primitive and combinator and assumed only of children; &str cursors stay on char boundaries.",
+        _A + " Termination, complexity and stack depth are not decided; debug_assert progress checks are compiled out in driver harnesses.",
+        "DESIGN 4/C20",
     ),
 })
